@@ -74,6 +74,28 @@ func verifHarness_C08_robust_t12_Q() { verifC08RobustHarness(12, 3) }
 func verifHarness_C08_robust_t15_Q() { verifC08RobustHarness(15, 2) }
 func verifHarness_C08_robust_t18_Q() { verifC08RobustHarness(18, 3) }
 
+// thorough: every template of C06's list
+func verifHarness_C08_robust_t00_method_T() { verifC08RobustHarness(0, 3) }
+func verifHarness_C08_robust_t01_path_T() { verifC08RobustHarness(1, 3) }
+func verifHarness_C08_robust_t02_proto_T() { verifC08RobustHarness(2, 3) }
+func verifHarness_C08_robust_t03_request_line_end_T() { verifC08RobustHarness(3, 3) }
+func verifHarness_C08_robust_t04_header_key_T() { verifC08RobustHarness(4, 3) }
+func verifHarness_C08_robust_t05_header_value_T() { verifC08RobustHarness(5, 3) }
+func verifHarness_C08_robust_t06_header_line_end_T() { verifC08RobustHarness(6, 3) }
+func verifHarness_C08_robust_t07_content_length_value_T() { verifC08RobustHarness(7, 2) }
+func verifHarness_C08_robust_t08_body_then_pipelined_T() { verifC08RobustHarness(8, 3) }
+func verifHarness_C08_robust_t09_transfer_encoding_value_T() { verifC08RobustHarness(9, 3) }
+func verifHarness_C08_robust_t10_chunk_size_T() { verifC08RobustHarness(10, 3) }
+func verifHarness_C08_robust_t11_chunk_ext_T() { verifC08RobustHarness(11, 3) }
+func verifHarness_C08_robust_t12_chunk_data_end_T() { verifC08RobustHarness(12, 3) }
+func verifHarness_C08_robust_t13_last_chunk_end_T() { verifC08RobustHarness(13, 3) }
+func verifHarness_C08_robust_t14_trailer_declaration_T() { verifC08RobustHarness(14, 3) }
+func verifHarness_C08_robust_t15_trailer_key_T() { verifC08RobustHarness(15, 3) }
+func verifHarness_C08_robust_t16_trailer_value_T() { verifC08RobustHarness(16, 3) }
+func verifHarness_C08_robust_t17_client_proto_T() { verifC08RobustHarness(17, 3) }
+func verifHarness_C08_robust_t18_client_status_code_T() { verifC08RobustHarness(18, 3) }
+func verifHarness_C08_robust_t19_client_status_text_T() { verifC08RobustHarness(19, 3) }
+
 // ---- framing metadata with the real ServerProcessor
 
 type verifSeen struct {
